@@ -30,7 +30,7 @@ LEVEL_TEXT = (
 LEVEL_NOTE = (
     "Trusted: Lean kernel + Mathlib (axioms propext, Classical.choice, Quot.sound); jax.linear_transpose contract "
     "(automatic adjoints are the (conjugate) transpose of the dense matrix of the closure); real-number idealisation. "
-    "Outside the theorems: CircularConvolve/Convolve overrides (oracle only), trees in which a real part is taken (real->complex operators; covered by the executable model and the tie)."
+    "Outside the theorems: N-d / batched Convolve and CircularConvolve arithmetic and their mixed-class sums (oracle only), trees in which a real part is taken (real->complex operators; covered by the executable model and the tie)."
 )
 PROP_MODULES = ["Scico.Props.C05"]
 EXTRA_TARGETS = ["Drv.OpAlg"]
@@ -44,6 +44,8 @@ FILES = [
     "scico/operator/_stack.py",
     "scico/linop/_stack.py",
     "scico/function.py",
+    "scico/linop/_convolve.py",
+    "scico/linop/_circconv.py",
 ]
 RULE = (
     "1) dtype table: every (dtype, scalar kind) against jax.numpy.result_type (exhaustive). 2) class-pair table: every "
@@ -60,6 +62,10 @@ ASSUMPTIONS = [
     "jax.numpy.result_type is the dtype of jax arithmetic (validated against the model table on every run)",
 ]
 
+
+import concurrent.futures as _cf
+
+_POOL = _cf.ThreadPoolExecutor(max_workers=1)
 
 C05_KEYS = ("value", "adjoint_value", "accepted_nonconforming", "matrix_shape_vs_construction")
 
@@ -126,8 +132,12 @@ def run_case(ctx, model, env, orc, name, e, stream):
         m, n = info["matrix_shape"]
         xs = _inputs(rng, n, G.is_cplx(info["in_dtype"]))
         ys = _inputs(rng, m, G.is_cplx(info["out_dtype"]))
-        impl = env.observe(e, xs, ys)
-    mod = G.model_observe(model, e, xs, ys)
+        # the model is evaluated (driver subprocess) while the implementation is
+        fut = _POOL.submit(G.model_observe, model, e, xs, ys)
+        impl = env.evaluate(impl, xs, ys)
+        mod = fut.result()
+    else:
+        mod = G.model_observe(model, e, xs, ys)
     diffs = G.compare(impl, mod, e)
     nontrivial = G.skeleton(e) if G.nodes(e) > 1 else None
     ctx.case({"name": name, "skeleton": G.skeleton(e)[:300]}, nontrivial, sample_every=400)
@@ -243,15 +253,27 @@ def _js(v):
 
 
 def correspond(ctx, model):
+    import time as _time
+
+    _t = [_time.time()]
+    secs = ctx.extra.setdefault("section_seconds", {})
+
+    def _mark(name):
+        secs[name] = round(_time.time() - _t[0], 1)
+        _t[0] = _time.time()
+
     env = G.Env()
     orc = G.oracle(env)
     check_dtype_table(ctx, model)
+    _mark('dtype-table')
     # corpus first
     cdir = common.CORPUS_DIR / PROP
     if cdir.exists():
         for f in sorted(cdir.glob("*.json")):
             c = json.loads(f.read_text())
-            run_case(ctx, model, env, orc, "corpus:" + f.stem, c["e"], "corpus")
+            if "e" in c:  # (witness descriptions of findings replayed elsewhere carry no tree)
+                run_case(ctx, model, env, orc, "corpus:" + f.stem, c["e"], "corpus")
+    _mark('corpus')
     # exhaustive class-pair table
     table = T.pair_table(ctx.rng)
     ctx.exhaustive = True
@@ -262,6 +284,7 @@ def correspond(ctx, model):
             bad += 1
             if bad >= 8:
                 break
+    _mark('pair-table')
     # parts of the calculus without a Lean model: implementation-only oracle
     import opalg_stacks as S
 
@@ -277,14 +300,22 @@ def correspond(ctx, model):
             bad += 1
             if bad >= 8:
                 break
+    _mark('oracle-only')
     # stacks with a Lean model (vstack / dstack of random expressions)
     S.model_tie(ctx, env, model, ctx.n(30, 1200))
+    _mark('stacks')
     # freeze / Function.slice / Function.join with the Lean model
     S.freeze_tie(ctx, env, model, ctx.n(40, 1500))
+    _mark('freeze')
     # DiagonalReplicated with the Lean model
     S.drep_tie(ctx, env, model, ctx.n(30, 1200))
+    _mark('drep')
+    # Convolve closed-form arithmetic with the Lean model
+    S.conv_tie(ctx, env, model, ctx.n(60, 1500))
+    _mark('convolve')
     # histories: the same operator objects used first inside jit, then eagerly
     jit_history(ctx, env)
+    _mark('jit-history')
     # random trees
     n = ctx.n(200, 5000)
     dmax = ctx.n(4, 7)
@@ -299,6 +330,7 @@ def correspond(ctx, model):
             bad += 1
             if bad >= 12:
                 break
+    _mark("random-trees")
 
 
 def findings(ctx, model):
@@ -306,6 +338,7 @@ def findings(ctx, model):
 
     ctx.known_finding(S.KNOWN_NEG_INDEX, S.neg_index_still_fails(G.Env()))
     ctx.known_finding(S.KNOWN_DREP_OA, S.drep_oa_still_fails(G.Env()))
+    ctx.known_finding(S.KNOWN_CONV_JAX, S.conv_jax_still_fails(G.Env()))
 
 
 def search(ctx, model, why):
